@@ -306,6 +306,14 @@ def dropFailedFocusOut (fails : List Bool) (log : List Entry) : List Entry :=
     | e :: r => e :: go k r
   go 0 log
 
+/-- A FocusOut / FocusIn pair delivered to ONE widget: not a focus change (the property speaks of the old and the new
+widget; a focus command for the widget that is focused already must deliver nothing). Returns that widget. -/
+def selfFocusPair : Option Nat → List Entry → Option Nat
+  | _, [] => none
+  | _, .call w .focusOut _ :: r => selfFocusPair (some w) r
+  | some w, .call w' .focusIn _ :: r => if w = w' then some w else selfFocusPair none r
+  | p, _ :: r => selfFocusPair p r
+
 /-- Checks shared by all state ops. `pre` = atoms executed before the first call (for `cmd`).
 `consumeRule`: `none` = consume' must be consume ∨ executed, `some b` = must be `b`. -/
 def commonChecks (prevF : Nat) (prevX : List Bool) (hover : List Nat) (script : List Cmd) (pre : List Atom)
@@ -318,7 +326,10 @@ def commonChecks (prevF : Nat) (prevX : List Bool) (hover : List Nat) (script : 
   let focusMsg : Option String :=
     if now.e then none else
     match focusRun prevF false trF with
-    | some f' => if some f' = now.f then none
+    | some f' => if some f' = now.f then
+                   (match selfFocusPair none trF with
+                    | some w => some s!"FAIL focus: FocusOut and FocusIn delivered to the same widget {w} although the focus did not change"
+                    | none => none)
                  else some s!"FAIL focus: last FocusIn went to {f'} but focused widget is {now.f.getD 0}"
     | none =>
       if focusOutAnsweredWithFocus script now.log
